@@ -13,9 +13,7 @@ func VerifC01History() {
 	steps := verifParam("steps", 4)
 	ops := verifParam("ops", 3) // 1: submit only, 2: +clean, 3: +save/load
 	h := newHist(1000)
-	if verifParam("rich", 0) == 1 {
-		h.richState()
-	}
+	h.setupState()
 	for s := 0; s < steps; s++ {
 		switch pick(fmt.Sprintf("op%d", s), ops) {
 		case 0:
